@@ -9,7 +9,7 @@ props=['C%02d'%i for i in range(1,19)]
 mods={p:importlib.import_module('rules.'+p.lower()) for p in props}
 base={p:selfval.violations(P,mods[p]) for p in props}
 t0=time.time()
-out=open('/var/tmp/global_surv5.txt','w')
+out=open('/var/tmp/global_surv6.txt','w')
 REL={'axelar_gateway':['C01','C02','C03','C06','C07','C08','C09','C13','C15','C16','C04'],
      'axelar_gas_service':['C06','C07','C14','C15','C05','C18'],
      'axelar_operators':['C06','C07','C15','C17'],
